@@ -142,11 +142,15 @@ Proof.
     unfold Zminus in Hm. rewrite inject_Z_plus, inject_Z_opp in Hm. change (inject_Z 1) with 1 in Hm.
     assert (HT : (T2 <= 10 ^ 13)%Z) by (unfold T2; apply Z.pow_le_mono_r; lia).
     apply inject_le in HT. change (inject_Z (10 ^ 13)) with (10000000000000 # 1) in HT.
-    unfold snap_factor.
-    assert (K : inject_Z (Z.abs m) < inject_Z T2 * (1 - (1 # 100000000000000))) by lra.
-    nra.
+    destruct gen_snap_factor_ok as [SL _].
+    assert (K : inject_Z (Z.abs m) <= inject_Z T2 * (1 - (1 # 10000000000000))) by lra.
+    assert (HT2 : 0 < inject_Z T2) by (pose proof T1_pos as T1p; pose proof T2_T1; change 0 with (inject_Z 0); rewrite <- Zlt_Qlt; lia).
+    assert (TB : 0 < inject_Z T2 * B) by nra.
+    assert (S1 : inject_Z (Z.abs m) * B <= inject_Z T2 * B * (1 - (1 # 10000000000000))) by nra.
+    assert (S2 : inject_Z T2 * B * (1 - (1 # 10000000000000)) < inject_Z T2 * B * snap_factor) by nra.
+    lra.
   - rewrite Hc, B_T2. rewrite (pow10_succ (oref + 1)). pose proof (pow10_pos (oref + 1)).
-    unfold snap_factor. nra.
+    destruct gen_snap_factor_ok as [SL _]. nra.
 Qed.
 
 Section Scaled.
